@@ -13,7 +13,7 @@ LEVEL_TEXT = ('Lean 4 theorems over tables regenerated from radiometry.py (decim
               'form a cocycle with identity and round trips (64 triples, any field of characteristic 0); the 27 flux triples as '
               'identities of rational functions in flux, wave, H, C; Spectrum.to preserves the trapezoid integral of a density and '
               'the values of a unitless spectrum, composes and round-trips; exitance = pi x radiance and Planck unit-independence between Gen.planckExitance and Gen.planckRadiance, each translated from its own source function, '
-              'with exp uninterpreted; flux-unit composition at spectrum level; the multi-argument to() loop (model applyTo) is proved for ARBITRARY argument lists: arguments compose and a refusal stops the call with the accepted prefix applied (applyTo_append), an unknown name is a ValueError wherever it stands (applyTo_unknown_stops), any number of wavelength units act as the last one (applyTo_waves_last_wins; two-argument instances applyTo_wave_last_wins, applyTo_refusal_keeps_prefix), wavelength and flux conversion commute (spectrum_to_wave_flux_commute), and on a density with non-zero wavelengths any list of valid unit names in any order equals ONE conversion to the last flux unit and ONE to the last wavelength unit named (applyTo_normal_form); Spectrum.to\'s per-sample steps (which of wave/value is multiplied or divided by which factor, the metre detour of flux conversion) are regenerated as Gen.toStep* and the model is defined through them (bridge lemmas toWave_eq/toFlux_eq); a converted grid stays valid (toWave_valid); the name dispatch of Unit() is regenerated as the table Gen.unitOfName (every lower-cased name of every branch ↦ the `name` attribute of the class returned): the canonical names indexing the conversion tables are fixed points (unit_canonical_names_fixed), the documented aliases meter/micron/nanometer resolve like m/um/nm, every accepted name resolves to a canonical name of exactly one of the two tables and nothing else is accepted (unit_aliases_resolve). Partial: Wien peak and Stefan-Boltzmann total are checked numerically only.')
+              'with exp uninterpreted; flux-unit composition at spectrum level; the multi-argument to() loop (model applyTo) is proved for ARBITRARY argument lists: arguments compose and a refusal stops the call with the accepted prefix applied (applyTo_append), an unknown name is a ValueError wherever it stands (applyTo_unknown_stops), any number of wavelength units act as the last one (applyTo_waves_last_wins; two-argument instances applyTo_wave_last_wins, applyTo_refusal_keeps_prefix), wavelength and flux conversion commute (spectrum_to_wave_flux_commute), and on a density with non-zero wavelengths any list of valid unit names in any order equals ONE conversion to the last flux unit and ONE to the last wavelength unit named (applyTo_normal_form); Spectrum.to\'s per-sample steps (which of wave/value is multiplied or divided by which factor, the metre detour of flux conversion) are regenerated as Gen.toStep* and the model is defined through them (bridge lemmas toWave_eq/toFlux_eq); a converted grid stays valid (toWave_valid); the name dispatch of Unit() is regenerated as the table Gen.unitOfName (every lower-cased name of every branch ↦ the `name` attribute of the class returned): the canonical names indexing the conversion tables are fixed points (unit_canonical_names_fixed), the documented aliases meter/micron/nanometer resolve like m/um/nm, every accepted name resolves to a canonical name of exactly one of the two tables and nothing else is accepted (unit_aliases_resolve); the `waveunit`/`valueunit` setters and getters (Unit(name).name) and the two name lists Spectrum.to dispatches on are regenerated (Gen.reportedUnit, toWaveNames, toFluxNames): every unit a spectrum reports is a target `to` accepts, the lists are the canonical names of the two tables, the aliases of Unit() are not among them (reported_units_are_to_targets). Partial: Wien peak and Stefan-Boltzmann total are checked numerically only.')
 LEVEL_NOTE = ('what the theorems establish: CONSISTENCY of the conversion tables (cocycle, identity, round trips) and of Spectrum.to/Planck with them, plus absolute anchors — wave_factor_absolute (every wavelength factor = ratio of hand-written SI sizes), flux_factor_absolute (photlam→wlam = f·h·c/λ, wlam↔flam = 10³), constants_near_codata (H, C, K within 1e-6 of CODATA 2018), planck_closed_form (the translated functions are 2hc²/(λ⁵(e^{hc/λkT}−1)) and 2π·…); exp itself is uninterpreted, so the unit-independence theorems hold for any function of λ[m] and T in its place. partial: the clauses "peaks where Wien\'s law says" and "integrates to the Stefan-Boltzmann total" have no theorem '
               '(they need d/dλ of Planck\'s law and ∫x³/(eˣ−1)=π⁴/15); they are evaluated numerically on the implementation in every '
               'run. Trusted: tools/specs/c14.py (if-chain/literal reader), np.exp, np.trapz as Σ Δx·(y₀+y₁)/2.')
